@@ -675,6 +675,7 @@ func (r *ringDescriber) getClusterPeerInfo(localHost *HostInfo) ([]*HostInfo, er
 // Return true if the host is a valid peer
 func isValidPeer(host *HostInfo) bool {
 	return !(len(host.RPCAddress()) == 0 ||
+		host.invalidConnectAddr() ||
 		host.hostId == "" ||
 		host.dataCenter == "" ||
 		host.rack == "" ||
